@@ -166,8 +166,12 @@ def judge_exe():
     return os.path.join(VERIF, 'ocaml', '_build', 'judge')
 
 
+UNIVERSE_STATUS = {}
+
+
 def run_judge(universe_sx, cases, obs, workdir, shards=None):
-    """returns {id: ('ok',) | ('FAIL', [tags], detail)}"""
+    """returns {id: ('ok',) | ('FAIL', [tags], detail)}; universe_sx holds the (env ...) and
+    (gouniverse ...) forms; the judge's cross-check of the two lands in UNIVERSE_STATUS"""
     os.makedirs(workdir, exist_ok=True)
     upath = os.path.join(workdir, 'universe.sexp')
     with open(upath, 'w') as fh:
@@ -189,6 +193,9 @@ def run_judge(universe_sx, cases, obs, workdir, shards=None):
         for out in ex.map(one, paths):
             for ln in out.split('\n'):
                 parts = ln.split('\t')
+                if parts[0] == 'UNIVERSE':
+                    UNIVERSE_STATUS[parts[1]] = parts[2] if len(parts) > 2 else ''
+                    continue
                 if len(parts) == 2 and parts[1] == 'ok':
                     res[parts[0]] = ('ok',)
                 elif len(parts) >= 4 and parts[1] == 'FAIL':
